@@ -15,6 +15,7 @@ import (
 	"net"
 	"net/http"
 	"net/url"
+	"regexp"
 	"runtime"
 	"sort"
 	"strconv"
@@ -80,6 +81,19 @@ type c20Case struct {
 	} `json:"dec,omitempty"`
 	// replay
 	Ev *c20Event `json:"ev,omitempty"`
+}
+
+var c20Code = regexp.MustCompile(`<u([0-9A-F]{4,6})>`)
+
+// c20Expand replaces the specification's <uXXXX> by the UTF-8 encoding of U+XXXX.
+func c20Expand(s string) string {
+	if !strings.Contains(s, "<u") {
+		return s
+	}
+	return c20Code.ReplaceAllStringFunc(s, func(m string) string {
+		n, _ := strconv.ParseInt(m[2:len(m)-1], 16, 32)
+		return string(rune(n))
+	})
 }
 
 func c20Big(limbs []int64) int64 {
@@ -581,7 +595,7 @@ func c20RandFormat(r *rand.Rand, unixOK bool) []c20Tok {
 			if lastText && i > 0 {
 				continue
 			}
-			toks = append(toks, c20Tok{"text", []string{" ", " - ", "\" \"", "[", "] ", " | ", "\t"}[r.Intn(7)]})
+			toks = append(toks, c20Tok{"text", []string{" ", " - ", "\" \"", "[", "] ", " | ", "\t", "µs ", " ✓ ", "ü=日本 ", "😀"}[r.Intn(11)]})
 			lastText = true
 		}
 	}
@@ -655,6 +669,12 @@ func TestVerifC20Logger(t *testing.T) {
 		var c c20Case
 		if err := json.Unmarshal(raw, &c); err != nil {
 			return fmt.Errorf("bad case: %v", err)
+		}
+		for i := range c.Fmt {
+			c.Fmt[i].V = c20Expand(c.Fmt[i].V)
+		}
+		for i := range c.Lines {
+			c.Lines[i] = c20Expand(c.Lines[i])
 		}
 		switch {
 		case c.Events != nil:
